@@ -389,7 +389,10 @@ func (c *certificateV2) fromTBSCertificate(t *TBSCertificate) error {
 }
 
 func (c *certificateV2) validate() error {
-	// Empty names are allowed
+	// The wire format (cert_v2.asn1, unmarshalDetails) requires a name of 1 to MaxNameLength bytes
+	if len(c.details.name) == 0 || len(c.details.name) > MaxNameLength {
+		return NewErrInvalidCertificateProperties("name must be between 1 and %d bytes long", MaxNameLength)
+	}
 
 	if len(c.publicKey) == 0 {
 		return ErrInvalidPublicKey
